@@ -126,3 +126,15 @@ CONTRACTS.update({
         modifies=[],
     ),
 })
+
+CONTRACTS.update({
+    RV + "validate_node_types": dict(
+        props=["C08"],
+        params={"graph": OBJ("Graph"), "supported_types": SET(ANY)},
+        returns=NONE_T,
+        # a node kind without a registered executor is refused before anything runs, wherever the node sits
+        raises={"TypeError": "any(type(n) not in supported_types for n in graph._nodes.values())"},
+        modifies=[],
+        loops=[{"modifies": [], "invariant": ["not any(type(n) not in supported_types for n in _seq[:_i])"]}],
+    ),
+})
